@@ -460,6 +460,44 @@ def main(a0, a1):
             k = k - 1
     return acc
 ''', ['R', 'R']),
+    # fp.empty allocates fresh cells at every level: a store into one row is not seen through another
+    ('empty-2d-rows-are-distinct', '''
+@fp.fpy
+def main(a0, a1):
+    t = fp.empty(3, 2)
+    for i in range(3):
+        for j in range(2):
+            with fp.MPFloatContext(3, fp.RM.{rm1}):
+                t[i][j] = a0 * i + j
+    t[0][1] = a1
+    u = fp.empty(2, 2, 2)
+    for i in range(2):
+        for j in range(2):
+            for k in range(2):
+                u[i][j][k] = 0
+    u[1][0][1] = a0
+    with fp.IEEEContext(4, 8, fp.RM.{rm2}):
+        s = sum([sum(r) for r in t]) + u[0][0][1] + u[1][1][1]
+    return (t, u, s, len(t), len(t[0]))
+''', ['R', 'R']),
+    ('empty-1d-and-callee-fill', '''
+@fp.fpy
+def h0(p0, p1):
+    for i in range(len(p0)):
+        p0[i] = p1 + i
+    return len(p0)
+
+@fp.fpy
+def main(a0, a1):
+    n = 3
+    xs = fp.empty(n)
+    m = h0(xs, a0)
+    g = fp.empty(2, n)
+    k = h0(g[0], a1)
+    k = h0(g[1], a0)
+    g[1][2] = a1 / 3
+    return (xs, g, m + k)
+''', ['R', 'R']),
 ]
 
 RM_SAFE = ['RNE', 'RNA', 'RTP', 'RTZ', 'RAZ', 'RTN', 'RTO', 'RTE']
